@@ -13,9 +13,12 @@ RULE = ("same engine and history format as C01 (`item ctor n values ; op ; op ..
         "range aggregates (`lt` on minima, `gt` on maxima, `ge` on sums, `len`, `spread` = max-min on Combinator<MinAdd,MaxAdd>), "
         "order-sensitive `npre`/`nsuf` (range is not a prefix / suffix of a word built from the current contents with one element "
         "changed) on affHash and strCat, always-true, always-false. The harness wraps the Rust closure and logs every argument. "
-        "Compared: the returned Option<usize>, the probe log (raw), and `P` = every probe equals the aggregate of a range [l,k] "
-        "(resp. [k,r]) of the plain shadow vector; a predicate that is not monotone on the current contents is outside the "
-        "property's domain and is reported as `nm` by both sides (`search_predicate_not_monotone_here`). The exhaustive small-scope "
+        "Compared: the returned Option<usize>; the observable value of every probe, in call order, against the specification's "
+        "aggregate of the range [l,k] (resp. [k,r]) the theorem probes_are_ranges assigns to it; `{:?}` of every probe (raw); and "
+        "`P` = every probe equals the aggregate of some range [l,k] of the harness's plain shadow vector, which is maintained and "
+        "folded with the harness's own re-implementation of each item's observable algebra (never with the merge/modify/default "
+        "under test). A predicate that is not monotone on the current contents is outside the domain of the *answer* clause: the "
+        "answer is printed as `nm` by all sides (`search_predicate_not_monotone_here`), its probes are still compared. The exhaustive small-scope "
         "stream of C01 additionally contains the searches. non-trivial = history with a search after at least one range modification")
 ASSUMPTIONS = [
     "the Lean model of rlib_segtree is hand-written (recursion tree instead of the implicit array); it is tied to the code by running both on the same histories",
@@ -27,8 +30,8 @@ MANIFEST = {
     "level": "proof",
     "text": ("Lean 4 theorems over an abstract lawful item: the modelled lower_bound / lower_bound_rev return exactly the first / last "
              "index whose in-order range aggregate satisfies the predicate (none iff there is none), for every tree size, start "
-             "position, lazy state and every predicate that is monotone on the actual ranges; every value shown to the predicate is "
-             "the aggregate of a range starting at l (ending at r); the searches preserve contents and well-formedness, so they can be "
+             "position, lazy state and every predicate that is monotone on the actual ranges; every value shown to the predicate — by any predicate, monotone "
+             "or not — is the aggregate of a range starting at l (ending at r); the searches preserve contents and well-formedness, so they can be "
              "interleaved with any history (C01). Defaults of all built-in items are proved to be identities on their domain. The "
              "hand-written model is tied to rlib_segtree by a differential correspondence run on every check."),
     "note": ("Trusted: Lean kernel, axioms propext/Classical.choice/Quot.sound, the hand-written model, harness and driver plumbing. "
